@@ -15,14 +15,21 @@ def make_jobs(inst, rng, n):
     jobs = []
     to = float(inst.params.get("test_timeout", 100))
     durs = [to * x for x in (0.0005, 0.002, 0.01, 0.05, 0.2, 0.6, 0.95)]
-    for _ in range(n):
+    for i in range(n):
         mt = rng.choice([1, 1, 1, 2, 3])
         rp = {}
+        dd = durs
+        if i % 3 == 0:
+            # retries with a concurrency limit below the number of workers and long tries: the occupier legitimately holds
+            # the node for several tries in a row
+            mt = rng.choice([2, 3, 4])
+            rp["max_concurrent_tries"] = "1"
+            dd = durs[-3:]
         if mt > 1:
             rp["max_tries"] = str(mt)
-            if rng.random() < 0.5:
+            if "max_concurrent_tries" not in rp and rng.random() < 0.5:
                 rp["max_concurrent_tries"] = str(rng.randint(1, mt))
-        jobs.append({"sched": {"seed": rng.randrange(1 << 30), "statuses": ["PASS", "FAIL"], "weights": [5, 1], "durations": durs},
+        jobs.append({"sched": {"seed": rng.randrange(1 << 30), "statuses": ["PASS", "FAIL"], "weights": [5, 1], "durations": dd},
                      "store": D.random_store(inst, rng, rng.choice([0.0, 0.3])), "run_params": rp, "cap": 8000})
     return jobs
 
